@@ -91,6 +91,9 @@ def check_day(ctx, day, tod):
         eq('us %r' % us_p, lambda: dt(us_p, dialect='us'), D)
         eq('us %r' % us_u, lambda: dt(us_u, dialect='us'), D)
         eq('US %r' % us_p, lambda: dt(us_p, dialect='US'), D)          # the dialect as the docstring spells it
+        eq('UK %r' % uk_p, lambda: dt(uk_p, dialect='UK'), D)          # ... and the other one spelt the same way
+        if d > 12:
+            rej('us-string %r read as UK' % us_p, lambda: dt(us_p, dialect='UK'))
         if d > 12:
             rej('uk-string %r read as US' % uk_p, lambda: dt(uk_p, dialect='US'))
         if d > 12:
